@@ -39,6 +39,8 @@ type C11Msg struct {
 
 type C11Scenario struct {
 	Msgs []C11Msg `json:"msgs"`
+	// Restart (e2e engine): the Subscriber is stopped and started again before the messages arrive
+	Restart bool `json:"restart,omitempty"`
 }
 
 var c11Payloads = []string{"valid", "valid", "valid", "bad_validate", "truncated", "bitflip", "empty", "random", "wrong_chain"}
@@ -76,6 +78,7 @@ func genC11Direct(t *rapid.T) C11Scenario {
 func genC11E2E(t *rapid.T) C11Scenario {
 	n := rapid.IntRange(1, 6).Draw(t, "nmsgs")
 	var s C11Scenario
+	s.Restart = rapid.IntRange(0, 3).Draw(t, "restart") == 0
 	for i := 0; i < n; i++ {
 		m := genC11Msg(t, false)
 		if (m.Payload == "valid" || m.Payload == "bad_validate" || m.Payload == "wrong_chain") && rapid.IntRange(0, 3).Draw(t, "local") == 0 {
@@ -378,6 +381,18 @@ func runC11E2E(t *testing.T, s C11Scenario) (res Result) {
 			return
 		}
 		defer sub.Stop(context.Background()) //nolint:errcheck
+		if s.Restart {
+			// a stopped and restarted Subscriber keeps its verifier and validates as before
+			if err := sub.Stop(ctx); err != nil {
+				res.failf("Subscriber.Stop failed: %v", err)
+				return
+			}
+			if err := sub.Start(ctx); err != nil {
+				res.failf("Subscriber.Start after Stop failed: %v", err)
+				return
+			}
+			res.label("restarted")
+		}
 		subscription, err := sub.Subscribe()
 		if err != nil {
 			res.failf("HARNESS: %v", err)
